@@ -16,10 +16,15 @@ def pstr(p):
     return "/" + "/".join(p)
 
 
-def make_locations(nlocs: int, wrap: bool, same_dep: bool = False):
+def make_locations(nlocs: int, wrap: bool, same_dep: bool = False, wrap2: bool = False):
+    """wrap: L3 wraps L2 with the mount point /a -> /b; wrap2: L2 wraps L1 with the mount point /b/a -> /b/b
+    (both: a stack of depth two, /a/a/x on L3 = /b/a/x on L2 = /b/b/x on L1)."""
     from streamflow.core.deployment import ExecutionLocation
     l1 = ExecutionLocation(name="__LOCAL__", deployment="__LOCAL__", local=True)
-    l2 = ExecutionLocation(name="n2", deployment="d2")
+    if wrap2:
+        l2 = ExecutionLocation(name="n2", deployment="d2", wraps=l1, mounts={"/b/a": "/b/b"})
+    else:
+        l2 = ExecutionLocation(name="n2", deployment="d2")
     if wrap:
         l3 = ExecutionLocation(name="n3", deployment="d3", wraps=l2, mounts={"/a": "/b"})
     elif same_dep:
